@@ -553,18 +553,25 @@ class Evaluator:
         if op == "&&":
             a = to_bool(self.ev(l, st))
             s2 = st.fork()
+            n0 = len(s2.pc)
             s2.assume(a)
+            n1 = len(s2.pc)
             b = to_bool(self.ev(r, s2))
             if _differs(s2, st):
                 raise EvalError("side effect in && operand")
+            for fact in s2.pc[n1:]:          # facts learnt while evaluating the right operand (callee postconditions)
+                st.assume(z3.Implies(a, fact))
             return Val(z3.And(a, b), "bool")
         if op == "||":
             a = to_bool(self.ev(l, st))
             s2 = st.fork()
             s2.assume(z3.Not(a))
+            n1 = len(s2.pc)
             b = to_bool(self.ev(r, s2))
             if _differs(s2, st):
                 raise EvalError("side effect in || operand")
+            for fact in s2.pc[n1:]:
+                st.assume(z3.Implies(z3.Not(a), fact))
             return Val(z3.Or(a, b), "bool")
         a = self.ev(l, st)
         b = self.ev(r, st)
